@@ -36,6 +36,7 @@ var onceForms = []struct {
 	{"failing", FuncSpec{ID: "o", In: []Label{{"", 1, ""}}, Out: []Label{{"", 0, ""}}, InForm: FormPositional, OutForm: FormPositional, HasErr: true, Fails: true}},
 	{"error-result-ok", FuncSpec{ID: "o", In: []Label{{"", 1, ""}}, Out: []Label{{"", 0, ""}}, InForm: FormPositional, OutForm: FormStruct, HasErr: true}},
 	{"named-in-out", FuncSpec{ID: "o", In: []Label{{"a", 1, ""}}, Out: []Label{{"a", 0, ""}}, InForm: FormStruct, OutForm: FormStruct}},
+	{"nil-pointer-struct", FuncSpec{ID: "o", In: []Label{{"", 1, ""}}, Out: []Label{{"", 0, ""}}, InForm: FormPositional, OutForm: FormPtrStruct, NilOut: true}},
 }
 
 type histOp struct {
@@ -54,6 +55,9 @@ var histOps = []histOp{
 	{name: "Call(tB; T1=x2)", target: "tB", inputs: []Input{{Label{"a", 1, ""}, "x2"}}},
 	{name: "Call(tB; T2=y2)", target: "tB", inputs: []Input{{Label{"", 2, ""}, "y2"}}},
 	{name: "Call(tA; T3=z)", target: "tA", inputs: []Input{{Label{"", 3, ""}, "z"}}},
+	{name: "Call(tV once,void; T3=w1)", target: "tV", inputs: []Input{{Label{"", 3, ""}, "w1"}}},
+	{name: "Call(tV once,void; T3=w2)", target: "tV", inputs: []Input{{Label{"", 3, ""}, "w2"}}},
+	{name: "Call(tR once; T3=w3)", target: "tR", inputs: []Input{{Label{"", 3, ""}, "w3"}}},
 	{name: "Redefine(tA)", redef: true, target: "tA"},
 	{name: "Redefine(tA; filter T2)", redef: true, target: "tA", hasF: true, filter: []int{2}},
 	{name: "Redefine(tB; T1=x1)", redef: true, target: "tB", inputs: []Input{{Label{"a", 1, ""}, "x1"}}},
@@ -95,6 +99,19 @@ func runHist(c HistCase, memoBody, skipRedef bool) (obs []string, onceCount int,
 	targets := map[string]*am.Func{
 		"tA": build(FuncSpec{ID: "tA", In: []Label{{"", 0, ""}}, InForm: FormPositional, Out: []Label{{"", 2, ""}}, OutForm: FormPositional}),
 		"tB": build(FuncSpec{ID: "tB", In: []Label{{"a", 0, ""}, {"", 3, ""}}, InForm: FormStruct, Out: []Label{{"", 2, ""}}, OutForm: FormPositional}),
+	}
+	// run-once *targets*: one without any result (reflect returns a nil slice for it) and
+	// one with a result; their bodies follow the same FuncOnce / memoizing-body switch
+	for _, ts := range []FuncSpec{
+		{ID: "tV", In: []Label{{"", 3, ""}}, InForm: FormPositional, OutForm: FormPositional},
+		{ID: "tR", In: []Label{{"", 3, ""}}, InForm: FormStruct, Out: []Label{{"", 2, ""}}, OutForm: FormPositional, HasErr: true},
+	} {
+		if memoBody {
+			w.Memo[ts.ID] = true
+		} else {
+			ts.Once = true
+		}
+		targets[ts.ID] = build(ts)
 	}
 	// tB's second parameter T3 comes from the once converter when it has two outputs,
 	// otherwise from a plain provider chained behind it
@@ -299,7 +316,7 @@ func init() {
 			return fs
 		}
 	}
-	doc := "all operation sequences up to the stated depth over {6 Call option sets on 2 shared targets, 3 Redefine option sets} x 8 forms of the shared run-once converter (positional/struct/pointer-struct/two outputs/failing/error-returning/named), sharing a chained converter and a failing converter"
+	doc := "all operation sequences up to the stated depth over {9 Call option sets on 4 shared targets (two of them run-once, one without results), 3 Redefine option sets} x 9 forms of the shared run-once converter (positional/struct/pointer-struct/two outputs/failing/error-returning/named), sharing a chained converter and a failing converter"
 	CaseTiers["hist-C09"] = &CaseTier{Name: "hist-C09", Doc: doc, Run: run("C09"), Replay: replay("C09")}
 	CaseTiers["hist-C11"] = &CaseTier{Name: "hist-C11", Doc: doc, Run: run("C11"), Replay: replay("C11")}
 	Plans["C09"] = map[string][]Step{
